@@ -224,7 +224,9 @@ def solve_milp(
         counter += 1
 
     if best_solution is None:
-        return Result(None, float("inf") if minimize else float("-inf"), nodes_explored, total_iters, Status.INFEASIBLE)
+        # Open nodes left means the node budget ran out: nothing was proven about feasibility
+        status = Status.MAX_ITER if tree else Status.INFEASIBLE
+        return Result(None, float("inf") if minimize else float("-inf"), nodes_explored, total_iters, status)
 
     status = Status.OPTIMAL if not tree else Status.FEASIBLE
     if solution_limit > 1 and all_solutions:
